@@ -89,7 +89,28 @@ def oracle(summary):
     return viol
 
 
+def trace_oracle(summary):
+    """what can be judged on a direct-drive replay: once-only closed, nothing after it, documented verdict"""
+    viol = []
+    ev = summary["events"]
+    closed = [(i, v) for i, (n, v) in enumerate(ev) if n == "closed"]
+    if len(closed) > 1:
+        viol.append(("closed-twice", f"closed notified {len(closed)} times: {closed}"))
+    if closed and closed[0][0] != len(ev) - 1:
+        viol.append(("event-after-closed", f"events after closed: {ev[closed[0][0] + 1:]}"))
+    if closed and not summary["internal"] and closed[0][1] not in DOC_VERDICTS:
+        viol.append(("verdict:" + str(closed[0][1]), f"closed with undocumented verdict {closed[0][1]}"))
+    for ent in summary["internal"]:
+        viol.append(("internal:" + ent[0], f"internal failure {ent}"))
+    return viol
+
+
+EXTRA_TARGETS = ["wvsearch"]
+
+
 def run_case(case):
+    if case.get("kind") == "trace":
+        return mc.run_trace_case(case, trace_oracle)
     if "ops" in case:
         ob, summary = mc.replay(case["ops"], welcome_error=case.get("welcome_error"), npeers=case.get("npeers"),
                                 seed=case.get("seed", 0))
@@ -114,6 +135,9 @@ def explicit(case):
 
 
 def shrink(case):
+    if case.get("kind") == "trace":
+        yield from mc.trace_shrink(case)
+        return
     case = explicit(case)
     ops = case["ops"]
     for i in range(len(ops) - 1, -1, -1):
@@ -124,6 +148,7 @@ def shrink(case):
 
 def search(rng, seconds, seeds):
     t0 = time.time()
+    yield from mc.model_guided(trace_oracle)
     for c in seeds:
         yield c, run_case(c)
     while time.time() - t0 < seconds:
